@@ -4,4 +4,6 @@ set -e
 cd /verif/harness
 export CARGO_NET_OFFLINE=true
 mkdir -p target /verif/evidence /verif/replays
+cat /repo/std/*.qv /repo/std/*/*.qv 2>/dev/null | sha1sum | cut -d' ' -f1 > target/std.stamp
+touch /repo/quiver-compiler/src/resolver.rs
 cargo build --profile verif 2>&1 | tail -3
